@@ -20,66 +20,66 @@ import (
 	"github.com/MixinNetwork/mixin/crypto"
 )
 
-type nonceVariant struct {
+type c12NonceVariant struct {
 	sig  *crypto.CosiSignature
 	msg  crypto.Hash
 	chal *big.Int // nil: Challenge fails
 }
 
-type nonceAnswer struct {
+type c12NonceAnswer struct {
 	chal, s, y *big.Int
 }
 
-type nonceState struct {
+type c12NonceState struct {
 	privs    []*big.Int
 	pubs     []*crypto.Key
-	variants map[int]*nonceVariant
+	variants map[int]*c12NonceVariant
 	nonce    *crypto.CosiNonce
 	z        *big.Int
-	answers  []nonceAnswer // every successful answer of the current nonce
-	book     *nonceBook
+	answers  []c12NonceAnswer // every successful answer of the current nonce
+	book     *c12NonceBook
 }
 
-func nonceGet(st *State) *nonceState {
-	if v, ok := st.V["nonce"].(*nonceState); ok {
+func c12NonceGet(st *State) *c12NonceState {
+	if v, ok := st.V["nonce"].(*c12NonceState); ok {
 		return v
 	}
-	v := &nonceState{variants: map[int]*nonceVariant{}}
+	v := &c12NonceState{variants: map[int]*c12NonceVariant{}}
 	st.V["nonce"] = v
 	return v
 }
 
-type nonceOutcome struct {
+type c12NonceOutcome struct {
 	kind string // ok | reuse | err
 	s    *big.Int
 }
 
-func (o nonceOutcome) String() string {
+func (o c12NonceOutcome) String() string {
 	if o.kind == "ok" {
 		return "ok:" + o.s.String()
 	}
 	return o.kind
 }
 
-func callNonce(h *crypto.CosiNonce, v *nonceVariant, priv *crypto.Key, pubs []*crypto.Key) (o nonceOutcome) {
+func c12CallNonce(h *crypto.CosiNonce, v *c12NonceVariant, priv *crypto.Key, pubs []*crypto.Key) (o c12NonceOutcome) {
 	defer func() {
 		if e := recover(); e != nil {
-			o = nonceOutcome{kind: "panic"}
+			o = c12NonceOutcome{kind: "panic"}
 		}
 	}()
 	s, err := h.Response(v.sig, priv, pubs, v.msg)
 	switch {
 	case err == nil:
-		return nonceOutcome{kind: "ok", s: bytesScalar(s[:])}
+		return c12NonceOutcome{kind: "ok", s: c12BytesScalar(s[:])}
 	case errors.Is(err, crypto.ErrCosiNonceReuse):
-		return nonceOutcome{kind: "reuse"}
+		return c12NonceOutcome{kind: "reuse"}
 	default:
-		return nonceOutcome{kind: "err"}
+		return c12NonceOutcome{kind: "err"}
 	}
 }
 
 // record checks one outcome against the nonce discipline (independent of the model).
-func (ns *nonceState) record(res *Result, v *nonceVariant, y *big.Int, o nonceOutcome) {
+func (ns *c12NonceState) record(res *Result, v *c12NonceVariant, y *big.Int, o c12NonceOutcome) {
 	fail := func(key, desc string) {
 		if res.PropKey == "" {
 			res.PropKey, res.PropDesc = key, desc
@@ -99,9 +99,9 @@ func (ns *nonceState) record(res *Result, v *nonceVariant, y *big.Int, o nonceOu
 		for _, a := range ns.answers {
 			if a.chal.Cmp(v.chal) != 0 {
 				// two answers for different challenges: try to extract the private key
-				d := modL(new(big.Int).Sub(a.chal, v.chal))
-				inv := new(big.Int).ModInverse(d, ellBig)
-				rec := modL(new(big.Int).Mul(modL(new(big.Int).Sub(a.s, o.s)), inv))
+				d := c12ModL(new(big.Int).Sub(a.chal, v.chal))
+				inv := new(big.Int).ModInverse(d, c12EllBig)
+				rec := c12ModL(new(big.Int).Mul(c12ModL(new(big.Int).Sub(a.s, o.s)), inv))
 				fail("C12:two-challenges-answered", fmt.Sprintf("nonce answered challenges %s and %s; (s1-s2)/(c1-c2) = %s, private key recovered: %v",
 					a.chal, v.chal, rec, rec.Cmp(a.y) == 0 || rec.Cmp(y) == 0))
 			} else if a.s.Cmp(o.s) != 0 {
@@ -109,17 +109,17 @@ func (ns *nonceState) record(res *Result, v *nonceVariant, y *big.Int, o nonceOu
 			}
 		}
 		if len(ns.answers) == 0 {
-			want := modL(new(big.Int).Add(new(big.Int).Mul(v.chal, y), ns.z))
+			want := c12ModL(new(big.Int).Add(new(big.Int).Mul(v.chal, y), ns.z))
 			if want.Cmp(o.s) != 0 {
 				fail("C12:response-value", "first response is not c*y+z")
 			}
 		}
-		ns.answers = append(ns.answers, nonceAnswer{chal: v.chal, s: o.s, y: y})
+		ns.answers = append(ns.answers, c12NonceAnswer{chal: v.chal, s: o.s, y: y})
 	}
 }
 
 // after all outcomes of a step are recorded: everything that was not answered must be a refusal
-func (ns *nonceState) checkRefusals(res *Result, vs []*nonceVariant, os []nonceOutcome) {
+func (ns *c12NonceState) checkRefusals(res *Result, vs []*c12NonceVariant, os []c12NonceOutcome) {
 	if len(ns.answers) == 0 {
 		for i, o := range os {
 			if vs[i].chal != nil && res.PropKey == "" {
@@ -142,9 +142,9 @@ func (ns *nonceState) checkRefusals(res *Result, vs []*nonceVariant, os []nonceO
 	}
 }
 
-func execNonce(st *State, line string) Result {
+func c12ExecNonce(st *State, line string) Result {
 	t := strings.Fields(line)
-	ns := nonceGet(st)
+	ns := c12NonceGet(st)
 	res := Result{Tags: []string{t[0]}}
 	switch t[0] {
 	case "reset":
@@ -152,8 +152,8 @@ func execNonce(st *State, line string) Result {
 	case "pub":
 		ns.privs, ns.pubs = nil, nil
 		for _, tok := range t[1:] {
-			y := parseBigTok(tok)
-			k := pointOf(y)
+			y := c12ParseBigTok(tok)
+			k := c12PointOf(y)
 			ns.privs = append(ns.privs, y)
 			ns.pubs = append(ns.pubs, &k)
 		}
@@ -169,13 +169,13 @@ func execNonce(st *State, line string) Result {
 		var id, n int
 		fmt.Sscan(t[1], &id)
 		fmt.Sscan(t[3], &n)
-		v := &nonceVariant{}
+		v := &c12NonceVariant{}
 		copy(v.msg[:], UnHex(t[2]))
 		randoms := map[int]*crypto.Key{}
 		for j := 0; j < n; j++ {
 			var idx int
 			fmt.Sscan(t[4+2*j], &idx)
-			k := pointOf(parseBigTok(t[5+2*j]))
+			k := c12PointOf(c12ParseBigTok(t[5+2*j]))
 			randoms[idx] = &k
 		}
 		sig, err := crypto.CosiAggregateCommitment(randoms)
@@ -184,20 +184,20 @@ func execNonce(st *State, line string) Result {
 		}
 		v.sig = sig
 		if x, err := sig.Challenge(ns.pubs, v.msg); err == nil {
-			v.chal = bytesScalar(x.Bytes())
+			v.chal = c12BytesScalar(x.Bytes())
 		}
 		ns.variants[id] = v
-		res.LeanIn = strings.Join(append(append([]string{}, t[:4+2*n]...), chalTok(v.chal)), " ")
+		res.LeanIn = strings.Join(append(append([]string{}, t[:4+2*n]...), c13ChalTok(v.chal)), " ")
 		res.Out = "ok"
 	case "new": // new <seed hex 64 bytes> [z]
 		seed := UnHex(t[1])
 		zk := crypto.NewKeyFromSeed(seed)
-		ns.z = bytesScalar(zk[:])
+		ns.z = c12BytesScalar(zk[:])
 		ns.nonce = crypto.CosiCommitNonce(bytes.NewReader(seed))
 		ns.answers = nil
 		res.LeanIn = fmt.Sprintf("new %s %s", t[1], ns.z)
 		res.Out = "ok " + ns.z.String()
-		if ns.nonce.Public() != pointOf(ns.z) {
+		if ns.nonce.Public() != c12PointOf(ns.z) {
 			res.Out = "ok commitment-mismatch"
 			res.PropKey, res.PropDesc = "C12:commitment", "nonce commitment is not z•B"
 		}
@@ -216,11 +216,11 @@ func execNonce(st *State, line string) Result {
 			c := *ns.nonce // a copy of the handle shares the state
 			handle = &c
 		}
-		priv := crypto.Key(scalarBytes(ns.privs[signer]))
-		o := callNonce(handle, v, &priv, ns.pubs)
+		priv := crypto.Key(c12ScalarBytes(ns.privs[signer]))
+		o := c12CallNonce(handle, v, &priv, ns.pubs)
 		res.Out = o.String()
 		ns.record(&res, v, ns.privs[signer], o)
-		ns.checkRefusals(&res, []*nonceVariant{v}, []nonceOutcome{o})
+		ns.checkRefusals(&res, []*c12NonceVariant{v}, []c12NonceOutcome{o})
 		res.Tags = append(res.Tags, "respond:"+o.kind)
 		res.Nontrivial = o.kind == "ok"
 	case "race": // race <signer> <first|?> v1 … vk
@@ -231,14 +231,14 @@ func execNonce(st *State, line string) Result {
 		}
 		var signer int
 		fmt.Sscan(t[1], &signer)
-		vs := make([]*nonceVariant, 0, len(t)-3)
+		vs := make([]*c12NonceVariant, 0, len(t)-3)
 		for _, tok := range t[3:] {
 			var vid int
 			fmt.Sscan(tok, &vid)
 			vs = append(vs, ns.variants[vid])
 		}
-		priv := crypto.Key(scalarBytes(ns.privs[signer]))
-		os := make([]nonceOutcome, len(vs))
+		priv := crypto.Key(c12ScalarBytes(ns.privs[signer]))
+		os := make([]c12NonceOutcome, len(vs))
 		start := make(chan struct{})
 		var wg sync.WaitGroup
 		for i := range vs {
@@ -252,7 +252,7 @@ func execNonce(st *State, line string) Result {
 			go func(i int, handle *crypto.CosiNonce) {
 				defer wg.Done()
 				<-start
-				os[i] = callNonce(handle, vs[i], &p, ns.pubs)
+				os[i] = c12CallNonce(handle, vs[i], &p, ns.pubs)
 			}(i, handle)
 		}
 		close(start)
@@ -276,32 +276,32 @@ func execNonce(st *State, line string) Result {
 		ns.checkRefusals(&res, vs, os)
 		res.Out = strings.Join(outs, " ")
 		res.LeanIn = fmt.Sprintf("race %s %d %s", t[1], first, strings.Join(t[3:], " "))
-		res.Tags = append(res.Tags, fmt.Sprintf("race:goroutines<=%d", popBucket(len(vs))), fmt.Sprintf("race:challenges=%d", len(distinct)))
+		res.Tags = append(res.Tags, fmt.Sprintf("race:goroutines<=%d", c13PopBucket(len(vs))), fmt.Sprintf("race:challenges=%d", len(distinct)))
 		res.Nontrivial = len(distinct) >= 2
 	case "book", "retrieve":
-		return execNonceBook(ns, t, res)
+		return c12ExecNonceBook(ns, t, res)
 	default:
 		panic("harness: unknown nonce op " + t[0])
 	}
 	return res
 }
 
-func genNonceCase(r *Rand, _ int, tier string) []string {
+func c12GenNonceCase(r *Rand, _ int, tier string) []string {
 	lines := []string{"reset"}
 	n := 1 + r.Intn(8)
 	privs := make([]string, n)
 	for i := range privs {
-		privs[i] = randScalar(r).String()
+		privs[i] = c12RandScalar(r).String()
 	}
 	lines = append(lines, "pub "+strings.Join(privs, " "))
 	bad := -1
 	if n >= 2 && r.Chance(1, 8) {
 		bad = 1 + r.Intn(n-1)
-		lines = append(lines, fmt.Sprintf("badpub %d %s", bad, genBadPoint(r)))
+		lines = append(lines, fmt.Sprintf("badpub %d %s", bad, c12GenBadPoint(r)))
 	}
 	seed := r.Bytes(64)
 	zk := crypto.NewKeyFromSeed(seed)
-	z := bytesScalar(zk[:])
+	z := c12BytesScalar(zk[:])
 	// variants: distinct messages / commitment sets; some are exact duplicates (same challenge
 	// through a different CosiSignature object)
 	nv := 2 + r.Intn(5)
@@ -317,7 +317,7 @@ func genNonceCase(r *Rand, _ int, tier string) []string {
 					toks = append(toks, fmt.Sprintf("0 %s", z)) // signer 0 commits with this nonce
 					cnt++
 				} else if r.Bool() && (i != bad || r.Chance(1, 3)) {
-					toks = append(toks, fmt.Sprintf("%d %s", i, randScalar(r)))
+					toks = append(toks, fmt.Sprintf("%d %s", i, c12RandScalar(r)))
 					cnt++
 				}
 			}
@@ -356,7 +356,7 @@ func genNonceCase(r *Rand, _ int, tier string) []string {
 		}
 	}
 	if r.Chance(1, 6) {
-		lines = append(lines, genNonceBook(r)...)
+		lines = append(lines, c12GenNonceBook(r)...)
 	}
 	return lines
 }
@@ -368,7 +368,7 @@ func init() {
 			"sets, 25% exact duplicates, some with a refused key so that Challenge fails), a CosiNonce from a known seed, then sequential " +
 			"Response calls and races of 2..16 (thorough: 48) goroutines over handle copies with mixed variants; non-trivial = a race " +
 			"with at least two distinct challenges; distinct = distinct op line",
-		Gen:  genNonceCase,
-		Exec: execNonce,
+		Gen:  c12GenNonceCase,
+		Exec: c12ExecNonce,
 	})
 }
